@@ -35,6 +35,7 @@ type c01Outcome struct {
 	RespOK   bool
 	RespMsg  string
 	GotResp  bool
+	HysHdr   []string // Hysteria-* headers of the HTTP response
 }
 
 type c01Conn struct {
@@ -72,6 +73,11 @@ func c01Run(e *vsched.Exec, conns [][]string, disableUDP bool) {
 						o.Err = err.Error()
 					} else {
 						o.Status = resp.Status
+						for k := range resp.Header {
+							if strings.HasPrefix(strings.ToLower(k), "hysteria-") {
+								o.HysHdr = append(o.HysHdr, k)
+							}
+						}
 					}
 				case c01NonAuth:
 					resp, err := cn.cl.request("GET", "example.com", "/auth", nil)
@@ -130,6 +136,10 @@ func c01Run(e *vsched.Exec, conns [][]string, disableUDP bool) {
 					}
 					if firstOK < 0 && o.Status == protocol.StatusAuthOK {
 						e.Fail("rejected credentials got 233 on %s", cn.name)
+					}
+					if o.Status != protocol.StatusAuthOK && (o.Status != 404 || len(o.HysHdr) > 0) {
+						// default masquerade: a plain 404 without any Hysteria-specific header
+						e.Fail("rejected auth request on %s answered with status %d and Hysteria headers %v instead of the masquerade response", cn.name, o.Status, o.HysHdr)
 					}
 				}
 			case c01NonAuth:
